@@ -118,6 +118,7 @@ pub open spec fn parse_hdr(s: Seq<u8>) -> Option<Hdr> {
         match r { Some(h) => if s.len() - h.hlen >= h.payload { Some(h) } else { None }, None => None }
     }
 }
+#[verifier::spinoff_prover]
 pub proof fn lemma_parse_hdr_str(b: Seq<u8>, rest: Seq<u8>)
     requires b.len() < 0x1_0000_0000,
     ensures parse_hdr(rlp_str(b) + rest) matches Some(h) && !h.list && h.payload == b.len() && h.hlen + h.payload == rlp_str(b).len()
@@ -178,6 +179,7 @@ pub open spec fn concat_all(items: Seq<Seq<u8>>) -> Seq<u8>
 pub open spec fn rlp_list(items: Seq<Seq<u8>>) -> Seq<u8> {
     hdr(true, concat_all(items).len()) + concat_all(items)
 }
+#[verifier::spinoff_prover]
 pub proof fn lemma_canon_item(s: Seq<u8>)
     requires parse_hdr(s) is Some,
     ensures ({ let h = parse_hdr(s)->0;
